@@ -2827,6 +2827,244 @@ fn shuffle_v<T>(rng: &mut Rng, v: &mut Vec<T>) {
 	}
 }
 
+// ---------------------------------------------------------------------------------------------
+// chunks: the receiving side's arithmetic about the bitmap MMR at chunk boundaries
+// ---------------------------------------------------------------------------------------------
+
+/// Archive headers whose output leaf count sits on / next to a multiple of the 1024-bit chunk size,
+/// driven through a REAL `Desegmenter` of a fresh header-only chain.  The serving side is synthetic:
+/// a leaf set, the `BitmapAccumulator` TxHashSet builds over it (`init`), an output PMMR root, and a
+/// header that commits to both (`output_root = H(output_mmr_size | pmmr_root | bitmap_root)`).
+fn chunks_mode(out: &mut Out, rng: &mut Rng, thorough: bool) {
+	use grin_chain::pibd_params::verif_hooks::set_segment_heights;
+	use grin_core::core::BlockHeader;
+	let work = std::env::var("VERIF_WORK").expect("VERIF_WORK not set");
+	let mut st = Stats::default();
+	let kit = Kit::new(&format!("{}/chunks_src", work));
+	let mk_header = |n_out: u64, output_root: Hash| -> BlockHeader {
+		let mut h = BlockHeader::default();
+		h.version = grin_core::core::block::HeaderVersion(5);
+		h.height = 1000 + n_out;
+		h.output_mmr_size = pmmr::insertion_to_pmmr_index(n_out);
+		h.kernel_mmr_size = pmmr::insertion_to_pmmr_index(7);
+		h.output_root = output_root;
+		h
+	};
+	// (1) the pure function, through Desegmenter::new: every output count 0..=5000 (thorough 0..=20000
+	// and the neighbourhoods of 1024*k up to 2^20)
+	{
+		let dest = Subject::new(&format!("{}/chunks_sweep", work), &kit.genesis);
+		let mut counts: Vec<u64> = (0..=(if thorough { 20000 } else { 5000 })).collect();
+		for k in [5u64, 8, 16, 31, 32, 33, 64, 100, 255, 256, 511, 512, 513, 1023, 1024].iter() {
+			for d in [-2i64, -1, 0, 1, 2].iter() {
+				counts.push((1024 * k) .wrapping_add(*d as u64));
+			}
+		}
+		for n in counts {
+			let hdr = mk_header(n, Hash::from_vec(&[(n % 251) as u8; 32]));
+			let r = catch(AssertUnwindSafe(|| dest.c().desegmenter(&hdr).map(|d| d.read().as_ref().map(|d| d.expected_bitmap_mmr_size()))));
+			match r {
+				Ok(Ok(Some(size))) => {
+					out.line(&format!("seg bmsize {}", n), &format!("{} {}", pmmr::n_leaves(size), size));
+					st.inc(&format!("sweep:n%1024={}", match n % 1024 { 0 => "0", 1 => "1", 1023 => "1023", _ => "other" }));
+					// oracle, independent of the model: enough chunks to cover n, and not one more
+					let chunks = pmmr::n_leaves(size);
+					if chunks * 1024 < n || (n > 0 && (chunks - 1) * 1024 >= n) || (n == 0 && chunks != 0) || pmmr::insertion_to_pmmr_index(chunks) != size {
+						out.raw(&format!(
+							"#ORACLE-FAIL C16 chunks: Desegmenter expects a bitmap MMR of size {} ({} chunks) for an archive header with {} output leaves (output_mmr_size {})",
+							size, chunks, n, hdr.output_mmr_size
+						));
+					}
+				}
+				Ok(_) => out.raw(&format!("#ORACLE-FAIL C16 chunks: Chain::desegmenter failed for an archive header with {} outputs", n)),
+				Err(m) => out.raw(&format!("#ORACLE-FAIL C16 chunks: Chain::desegmenter panicked for an archive header with {} outputs: {}", n, m)),
+			}
+		}
+	}
+	// (2) the interesting counts with real segments
+	let mut counts: Vec<u64> = vec![1, 2, 1023, 1024, 1025, 2047, 2048, 2049, 3071, 3072, 3073, 4095, 4096, 4097, 5000];
+	if thorough {
+		counts.extend_from_slice(&[5119, 5120, 5121, 8191, 8192, 8193, 16384, 16385, 33 * 1024, 33 * 1024 + 1]);
+		for _ in 0..6 {
+			counts.push(rng.range(1, 12000));
+		}
+	}
+	let height_sets: Vec<Option<u8>> = if thorough { vec![None, Some(0), Some(1), Some(2), Some(3)] } else { vec![None, Some(0), Some(2)] };
+	let mut rcv = 0;
+	for n in counts {
+		let out_size = pmmr::insertion_to_pmmr_index(n);
+		// an output PMMR root: a real MMR over n elements (only its root enters the header)
+		let pmmr_root = {
+			let mut ba = VecBackend::<Elem>::new();
+			let mut size = 0u64;
+			for i in 0..n.min(300) {
+				let mut p = PMMR::at(&mut ba, size);
+				p.push(&Elem((i as u64 ^ n).to_be_bytes().to_vec())).unwrap();
+				size = p.size;
+			}
+			PMMR::at(&mut ba, size).root().unwrap()
+		};
+		// leaf sets: the last leaf is unspent (outputs of the archive block); dense, sparse, a whole
+		// middle chunk spent, only the last leaf
+		let patterns: Vec<&'static str> = if thorough { vec!["dense", "sparse", "middle-chunk-spent", "only-last", "all"] } else { vec!["dense", "middle-chunk-spent", "only-last"] };
+		for (pi, pat) in patterns.iter().enumerate() {
+			let mut unspent: BTreeSet<u64> = BTreeSet::new();
+			for i in 0..n {
+				let keep = match *pat {
+					"dense" => rng.below(10) < 8,
+					"sparse" => rng.below(40) == 0,
+					"middle-chunk-spent" => i / 1024 != (n / 1024) / 2 && rng.below(3) == 0,
+					"only-last" => false,
+					_ => true,
+				};
+				if keep {
+					unspent.insert(i);
+				}
+			}
+			unspent.insert(n - 1);
+			let mut acc = BitmapAccumulator::new();
+			acc.init(unspent.iter().cloned(), n).unwrap();
+			let acc_size = acc.readonly_pmmr().unpruned_size();
+			let acc_chunks = pmmr::n_leaves(acc_size);
+			if n <= 2100 && (pi == 0 || thorough) {
+				out.line(
+					&format!("seg accchunks {} {}", n, nat_list(&unspent.iter().cloned().collect::<Vec<_>>())),
+					&acc_chunks.to_string(),
+				);
+			}
+			let bitmap_root = acc.root();
+			let output_root = (pmmr_root, bitmap_root).hash_with_index(out_size);
+			let hdr = mk_header(n, output_root);
+			let hs = height_sets[(pi + (n as usize)) % height_sets.len()];
+			let hb = hs.unwrap_or(9);
+			rcv += 1;
+			let tag = format!("outputs={} (n%1024={}) leafset={} unspent={} bitmap-height={}", n, n % 1024, pat, unspent.len(), hb);
+			st.inc(&format!("real:n%1024={}", match n % 1024 { 0 => "0", 1 => "1", 1023 => "1023", _ => "other" }));
+			st.inc(&format!("real:height={}", hb));
+			st.inc(&format!("real:leafset={}", pat));
+			let dest = Subject::new(&format!("{}/chunks_dst_{}", work, rcv), &kit.genesis);
+			set_segment_heights(hs.map(|h| (h, 11, 11, 11)));
+			let deseg = dest.c().desegmenter(&hdr).unwrap();
+			set_segment_heights(None);
+			let mut guard = deseg.write();
+			let d = guard.as_mut().unwrap();
+			let exp_size = d.expected_bitmap_mmr_size();
+			if exp_size != acc_size {
+				out.raw(&format!(
+					"#ORACLE-FAIL C16 chunks: the Desegmenter expects a bitmap MMR of size {} ({} chunks) but the accumulator TxHashSet builds over the leaf set has size {} ({} chunks): {}",
+					exp_size, pmmr::n_leaves(exp_size), acc_size, acc_chunks, tag
+				));
+				continue;
+			}
+			out.raw("seg new");
+			out.line(&format!("seg dsg newh {} 11 11 11 {} 7", hb, n), "ok");
+			let mmr = acc.readonly_pmmr();
+			let n_segs = (acc_chunks + (1u64 << hb) - 1) >> hb;
+			st.inc(&format!("real:bitmap-segments={}", match n_segs { 1 => "1", 2..=4 => "2-4", _ => ">4" }));
+			let mut delivered: BTreeSet<u64> = BTreeSet::new();
+			let mut finalised = false;
+			let mut rounds = 0;
+			while !finalised && rounds < 20 + 2 * n_segs {
+				rounds += 1;
+				if let Err(e) = d.apply_next_segments() {
+					out.raw(&format!("#ORACLE-FAIL C16 chunks: apply_next_segments failed ({}): {}", error_class(&e), tag));
+					break;
+				}
+				let (so, sr, sk) = {
+					let ts = dest.c().txhashset();
+					let ts = ts.read();
+					(ts.output_mmr_size(), ts.rangeproof_mmr_size(), ts.kernel_mmr_size())
+				};
+				out.line("seg dsg apply", &format!("{} {} {} 0", so, sr, sk));
+				let wanted: Vec<(u8, SegmentIdentifier)> = d.next_desired_segments(15).iter().map(|x| (tree_no(&x.segment_type), x.identifier)).collect();
+				let toks: Vec<String> = wanted.iter().map(|(t, id)| format!("{}:{}:{}", t, id.height, id.idx)).collect();
+				out.line("seg dsg want", &format!("[{}]", toks.join(",")));
+				if wanted.iter().any(|(t, _)| *t != 0) {
+					finalised = true;
+					break;
+				}
+				// independent oracle: while the bitmap is incomplete, exactly the missing, not yet
+				// delivered segments are asked for (up to 15), in index order
+				let expect: Vec<u64> = (0..n_segs).filter(|i| !delivered.contains(i)).take(15).collect();
+				let got: Vec<u64> = wanted.iter().map(|(_, id)| id.idx).collect();
+				let all_in = delivered.len() as u64 == n_segs;
+				if !all_in && got != expect {
+					out.raw(&format!("#ORACLE-FAIL C16 chunks: next_desired_segments asks for bitmap segments {:?}, expected {:?}: {}", got, expect, tag));
+				}
+				let mut order = wanted.clone();
+				if rounds % 2 == 0 {
+					order.reverse();
+				}
+				for (_, id) in order {
+					let seg = match Segment::<BitmapChunk>::from_pmmr(id, &mmr, false) {
+						Ok(s) => s,
+						Err(e) => {
+							out.raw(&format!("#ORACLE-FAIL C16 chunks: the accumulator cannot serve bitmap segment ({},{}) the desegmenter asks for ({}): {}", id.height, id.idx, err_str(&e), tag));
+							continue;
+						}
+					};
+					// a wrong output PMMR root / a segment of the accumulator of a neighbouring leaf set must be refused
+					if rng.chance(1, 3) {
+						let bad = d.add_bitmap_segment(seg.clone(), Hash::from_vec(&rng.bytes(32)));
+						out.line(&format!("seg dsg add 0 {} {} 0", id.height, id.idx), if bad.is_ok() { "cached" } else { "refused" });
+						if bad.is_ok() {
+							out.raw(&format!("#ORACLE-FAIL C16 chunks: bitmap segment accepted with a wrong output PMMR root: {}", tag));
+						}
+					}
+					let r = d.add_bitmap_segment(seg, pmmr_root);
+					out.line(&format!("seg dsg add 0 {} {} {}", id.height, id.idx, if r.is_ok() { 1 } else { 0 }), if r.is_ok() { "cached" } else { "refused" });
+					st.inc(&format!("real:add:{}", if r.is_ok() { "accepted" } else { "refused" }));
+					match r {
+						Ok(()) => {
+							delivered.insert(id.idx);
+						}
+						Err(e) => out.raw(&format!(
+							"#ORACLE-FAIL C16 chunks: genuine bitmap segment ({},{}) of the accumulator over the leaf set refused ({}): {}",
+							id.height, id.idx, error_class(&e), tag
+						)),
+					}
+				}
+			}
+			drop(guard);
+			if !finalised {
+				out.raw(&format!("#ORACLE-FAIL C16 chunks: bitmap not finalised after {} rounds ({} of {} segments delivered): {}", rounds, delivered.len(), n_segs, tag));
+				continue;
+			}
+			// the finalised bitmap equals the source leaf set: the accumulator the desegmenter handed to
+			// the txhashset has the root of the source accumulator (the accumulator itself is private;
+			// equal roots = equal chunks, blake2b)
+			let got_root = dest.c().txhashset().read().roots().map(|r| r.output_roots.bitmap_root);
+			match got_root {
+				Ok(r) if r == bitmap_root => st.inc("real:finalised-bitmap-equals-leaf-set"),
+				Ok(r) => out.raw(&format!(
+					"#ORACLE-FAIL C16 chunks: the finalised bitmap differs from the source leaf set (bitmap root {} vs {}): {}",
+					hex(r.as_bytes()), hex(bitmap_root.as_bytes()), tag
+				)),
+				Err(e) => out.raw(&format!("#ORACLE-FAIL C16 chunks: roots() failed after the bitmap was finalised ({}): {}", error_class(&e), tag)),
+			}
+		}
+		// the same count with the whole last chunk spent: the accumulator is SHORTER than expected
+		// (not reachable for an archive header, whose last leaves are unspent) - recorded only
+		if n > 1024 && n % 1024 != 0 {
+			let unspent: Vec<u64> = (0..(n - n % 1024)).filter(|i| i % 3 == 0).collect();
+			let mut acc = BitmapAccumulator::new();
+			acc.init(unspent.iter().cloned(), n).unwrap();
+			let short = pmmr::n_leaves(acc.readonly_pmmr().unpruned_size());
+			if n <= 3100 {
+				out.line(&format!("seg accchunks {} {}", n, nat_list(&unspent)), &short.to_string());
+				// and over an empty leaf set: no chunk at all
+				let mut e = BitmapAccumulator::new();
+				e.init(Vec::<u64>::new(), n).unwrap();
+				out.line(&format!("seg accchunks {} []", n), &pmmr::n_leaves(e.readonly_pmmr().unpruned_size()).to_string());
+			}
+			if short < (n + 1023) / 1024 {
+				st.inc("accumulator-shorter-when-last-chunk-all-spent(unreachable-for-archive-header)");
+			}
+		}
+	}
+	st.dump(out, "chunks");
+}
+
 fn main() {
 	if std::env::var("VERIF_DEBUG").is_err() {
 		quiet_panics();
@@ -2850,6 +3088,9 @@ fn main() {
 	}
 	if mode == "assembly" {
 		assembly_mode(&mut out, &mut rng, thorough);
+	}
+	if mode == "chunks" {
+		chunks_mode(&mut out, &mut rng, thorough);
 	}
 	if mode == "ident" || mode == "all" {
 		ident_mode(&mut out, &mut rng, thorough);
